@@ -19,11 +19,23 @@ def directed(rng: random.Random, tier: str):
     for i in range(2, 112 if tier == "quick" else 230):
         hs.round([], [], 0, accept=True)
         hs.round([(i, hs.connect_v1(src_mod=0))], [1, i], 0)
-        if i % 7 == 0:
-            keep.append(i)
+        if i % 7 == 0 or (i - 2) % 100 in (97, 98, 99, 0, 1, 2):
+            keep.append(i)      # stay connected: among others, those served while the cursor wraps past the monitor's id
         else:
             hs.round([(i, hs.disconnect())], [1, i], 0)
     out.append(hs)
+    # boundary of the two id ranges: an explicit id equal to the first dynamic id, then dynamic requests
+    for explicit in (C.DYN_START if hasattr(C, "DYN_START") else 100, 99, 101, 199):
+        hs = C.History(loglevel=60, tag="dyn-boundary")
+        for _ in range(5):
+            hs.round([], [], 0, accept=True)
+        hs.round([(1, hs.connect_v2(logger=1, mod_id=10))], [1, 2, 3, 4, 5], 0)
+        hs.round([(1, hs.sub("sub", C.ALL))], [1, 2, 3, 4, 5], 0)
+        hs.round([(2, hs.connect_v1(src_mod=explicit))], [1, 2, 3, 4, 5], 0)
+        hs.round([(3, hs.connect_v1(src_mod=0))], [1, 2, 3, 4, 5], 0)
+        hs.round([(4, hs.connect_v1(src_mod=0))], [1, 2, 3, 4, 5], 0)
+        hs.round([(5, hs.connect_v2(mod_id=0))], [1, 2, 3, 4, 5], 0)
+        out.append(hs)
     return out
 
 
